@@ -2,6 +2,7 @@ package main
 
 import (
 	"encoding/json"
+	"fmt"
 	"math/rand"
 )
 
@@ -10,7 +11,7 @@ func init() { register(&family{name: "kv", run: runKv}) }
 func sp(s string) *string   { return &s }
 func u32p(v uint32) *uint32 { return &v }
 
-var jsonBodies = []string{`{"a":1}`, `{"a":1,"b":{"c":2}}`, `{"n":null,"s":"x"}`, `{}`, `12`, `"str"`, `[1,2]`, `null`,
+var jsonBodies = []string{`{"a":2}`, `{"a":0,"b":3}`, `{"a":1}`, `{"a":1,"b":{"c":2}}`, `{"n":null,"s":"x"}`, `{}`, `12`, `"str"`, `[1,2]`, `null`,
 	`{"a":{"z":[1]},"b":true}`, `{"b":{"c":{"d":5}},"q":"w"}`, `{"a":1,"zz":"0123456789012345678901234567890123456789"}`}
 var rawBodies = []string{`raw1`, `{notjson`, `7`, `{"a":1}`, `x y z`, ``}
 var xattrVals = []string{`{"rev":"1-a"}`, `{"cas":"x","n":{"m":1}}`, `"s"`, `5`, `[1]`, `true`, `{"b":2,"a":1}`, `{}`}
@@ -334,6 +335,50 @@ func genKv(r *rand.Rand, tier string) kvInput {
 				st.Arg = pick(r, []string{"1-a", "2-b"})
 			}
 			in.Ops = append(in.Ops, st)
+		case x >= 15 && x <= 16:
+			cn := pick(r, live)
+			h := r.Intn(in.Handles)
+			if cn == "s1.c2" {
+				h = 0
+			}
+			if r.Intn(5) == 0 {
+				in.Ops = append(in.Ops, Step{Kind: "delddoc", Coll: cn, Handle: h, DDoc: "dd", Clock: next()})
+			} else {
+				perm := r.Perm(len(mapSources))
+				nv := 1 + r.Intn(3)
+				var vs []ViewDef
+				for j := 0; j < nv; j++ {
+					vs = append(vs, ViewDef{Name: fmt.Sprintf("v%d", j), Map: perm[j]})
+				}
+				in.Ops = append(in.Ops, Step{Kind: "putddoc", Coll: cn, Handle: h, DDoc: "dd", Views: vs, Clock: next()})
+			}
+		case x >= 17 && x <= 22:
+			cn := pick(r, live)
+			h := r.Intn(in.Handles)
+			if cn == "s1.c2" {
+				h = 0
+			}
+			vp := &ViewParams{}
+			keys := []string{`1`, `2`, `"k2"`, `"k1"`, `[1,"k2"]`, `[1]`, `[2,1]`, `0`}
+			switch r.Intn(8) {
+			case 0:
+				vp.Stale = true
+			case 1:
+				vp.Descending = true
+			case 2:
+				vp.Limit = 1 + r.Intn(3)
+			case 3:
+				vp.StartKey = sp(pick(r, keys))
+			case 4:
+				vp.StartKey, vp.EndKey = sp(pick(r, keys)), sp(pick(r, keys))
+				vp.ExclusiveEnd = r.Intn(2) == 0
+			case 5:
+				vp.Key = sp(pick(r, keys))
+			case 6:
+				vp.Descending, vp.Limit = true, 2
+				vp.StartKey = sp(pick(r, keys))
+			}
+			in.Ops = append(in.Ops, Step{Kind: "view", Coll: cn, Handle: h, DDoc: "dd", View: fmt.Sprintf("v%d", r.Intn(3)), VP: vp, Clock: next()})
 		case x == 9 && in.OnDisk:
 			in.Ops = append(in.Ops, Step{Kind: "reopen", Clock: next()})
 		case x >= 4 && x <= 7:
